@@ -358,7 +358,7 @@ def C02(ck):
 
 def C03(ck):
     ck.rule = ("the valid claims-sets of spec/Gen_Valid.tla (every 40th in quick, every 3rd in thorough; built through setters, as "
-               "literals, by decoding; extension profile X2) x algorithms (ES256 EdDSA PS256 in quick, all seven in thorough) with fresh "
+               "literals, by decoding; extension profile X2) x algorithms (ES256 EdDSA PS256 plus one of ES384 ES512 PS384 PS512 in rotation in quick, all seven in thorough) with fresh "
                "keys: SetClaims, ValidateAndSign (Sign for every 5th), token parsed by the independent reader, "
                "DecodeAndValidateEvidenceFromCOSE, Verify on both Evidence objects with the right and a wrong key; judged by "
                "Trace_Wire!SignRTOK (tag 18 / 4-array / protected = {1: alg} / payload byte-identical to the validated encoding and of "
